@@ -39,7 +39,9 @@ SEQ_FUNCS = {"list", "tuple", "iter", "enumerate", "reversed", "zip", "deque", "
 SET_METHODS = {"union", "intersection", "difference", "symmetric_difference", "copy"}
 
 # fields documented / normalised as unordered containers
-UNORDERED_FIELDS = {"depends_on", "statements"}
+# kind tables are filled in the order inference visits statements (C14 guarantees the
+# mapping, not its insertion order)
+UNORDERED_FIELDS = {"depends_on", "statements", "global_table", "per_phase_table"}
 
 EMIT_RE = re.compile(r"^(_?emit.*|emitter|declaration_emitter|emit)$")
 ALLOC_NAMES = {
